@@ -60,3 +60,17 @@ Theorem c02_left_to_right_is_instance : forall u rnd, (forall x, fl_eq u x (rnd 
   forall c xs, fl_sum_any u (c :: xs) (lr_sum rnd c xs).
 Proof. exact lr_sum_any. Qed.
 Print Assumptions c02_left_to_right_is_instance.
+
+From SLU Require Import NumMult.
+
+(* the STORED multipliers in rounded arithmetic: whether the column is divided by the pivot or scaled by its rounded
+   reciprocal, a pivot that passed the threshold test t * |a| <= |p| gives |l| <= (1/t)(1+u) resp. (1/t)(1+u)^2 *)
+Theorem c02_multiplier_div_rounded : forall u, 0 <= u -> forall a p t l,
+  0 < t -> p <> 0 -> t * Rabs a <= Rabs p -> fl_eq u (a / p) l -> Rabs l <= / t * (1 + u).
+Proof. exact multiplier_div. Qed.
+Print Assumptions c02_multiplier_div_rounded.
+
+Theorem c02_multiplier_recip_rounded : forall u, 0 <= u -> forall a p t r l,
+  0 < t -> p <> 0 -> t * Rabs a <= Rabs p -> fl_eq u (/ p) r -> fl_eq u (a * r) l -> Rabs l <= / t * ((1 + u) * (1 + u)).
+Proof. exact multiplier_recip. Qed.
+Print Assumptions c02_multiplier_recip_rounded.
